@@ -346,7 +346,18 @@ fn make_config(wl: &Workload) -> WalConfig {
     }
 }
 
+/// callers that ran into their 5 s ack timeout so far (coverage: the corpus must produce some)
+static TIMEOUTS_SEEN: std::sync::atomic::AtomicU64 = std::sync::atomic::AtomicU64::new(0);
+
+/// `group_commit_max_wait` values around the 5 s ack timeout of `write_durable` (virtual time, µs)
+const LONG_WAITS_US: [u64; 5] = [4_000_000, 4_998_000, 5_002_000, 10_000_000, 60_000_000]; // tokio timers have 1 ms granularity (deadlines round up): stay 2 ms off the tie, which is a race
+
 impl Workload {
+    /// the group-commit wait is long enough to compete with the callers' 5 s ack timeout: the workload is
+    /// compared through the model's caller automaton (op `GT`, `seenAfter`)
+    fn timeout_mode(&self) -> bool {
+        self.pol == Pol::Always && self.max_wait_us >= 1_000_000
+    }
     fn single(max_size: usize, max_entries: usize, faults: Vec<(usize, Outcome)>, groups: Vec<Vec<Msg>>) -> Workload {
         Workload { pol: Pol::Always, cfg_via_json: false, max_wait_us: 200, no_yield: false, max_size, max_entries, incs: vec![Inc { faults, dead: None, groups, ending: Ending::End, spawn_list_fails: false }] }
     }
@@ -378,6 +389,8 @@ fn ack_name(r: &Result<(), WalError>) -> &'static str {
         Err(WalError::Io(_)) => "io",
         Err(WalError::DiskFull) => "full",
         Err(WalError::PartialWrite { .. }) => "torn",
+        // (the caller's 5 s deadline is reported as FsyncFailed too — "WAL write timed out"; the class is what is
+        // compared, not the wording, so that a reworded message is not an alarm)
         Err(WalError::FsyncFailed(_)) => "fsync",
         Err(_) => "other",
     }
@@ -408,6 +421,7 @@ fn run_real(wl: &Workload) -> RunResult {
         let pol = wl.pol;
         let crash_next = inc.ending == Ending::Crash;
         let no_yield = wl.no_yield;
+        let burst_pause_us = if wl.timeout_mode() { wl.max_wait_us + 10_000 } else { 10_000 };
         let want_policy = cfg.fsync_policy;
         store.inner.lock().unwrap().list_plan.clear();
         if inc.spawn_list_fails {
@@ -500,7 +514,7 @@ fn run_real(wl: &Workload) -> RunResult {
                 // callers that wait for nothing (tick, truncate, fire-and-forget) return at once: let the
                 // actor finish this burst (incl. its group-commit wait) before the next one is sent.
                 // The clock is paused, so this costs no real time.
-                tokio::time::sleep(Duration::from_millis(10)).await;
+                tokio::time::sleep(Duration::from_micros(burst_pause_us)).await;
             }
             // Always: every burst ends flushed, so the final flush of shutdown() issues no I/O; it only
             // stops the actor (also before a crash).  EverySecond: shutdown() fsyncs once more if
@@ -527,6 +541,14 @@ fn run_real(wl: &Workload) -> RunResult {
 
 /// recovery of a crash image through the real rotator
 fn recover_ids(img: &[(String, Vec<u8>)], by_data: &HashMap<(Vec<u8>, u64), u64>, max: usize) -> Vec<String> {
+    recover_ids_checked(img, by_data, max).0
+}
+
+/// … plus the COMPOSED oracle of `Props/C09Compose.lean` (model-free): on every crash image
+/// `recover_entries_after(T)` must succeed (T = 0 and T = a stamp present in the image) and return, in
+/// order, exactly the deltas whose bincode bytes are the payloads `recover_all_entries` returned with a
+/// stamp >= T — and every one of them must be a delta that some `Write` message carried, bit-identical.
+fn recover_ids_checked(img: &[(String, Vec<u8>)], by_data: &HashMap<(Vec<u8>, u64), u64>, max: usize) -> (Vec<String>, Option<(&'static str, String)>) {
     let st = InMemoryWalStore::new();
     for (n, b) in img {
         let mut w = st.create(n).unwrap();
@@ -536,11 +558,39 @@ fn recover_ids(img: &[(String, Vec<u8>)], by_data: &HashMap<(Vec<u8>, u64), u64>
     }
     let rot = WalRotator::new(st, max).unwrap();
     let es: Vec<WalEntry> = rot.recover_all_entries().unwrap();
-    es.iter().map(|e| by_data.get(&(e.data.clone(), e.timestamp)).map(|i| i.to_string()).unwrap_or("?".into())).collect()
+    let mut complaint = None;
+    let mut thresholds = vec![0u64];
+    if let Some(e) = es.get(es.len() / 2) {
+        thresholds.push(e.timestamp);
+        thresholds.push(e.timestamp.saturating_add(1));
+    }
+    for t in thresholds {
+        let want: Vec<&WalEntry> = es.iter().filter(|e| e.timestamp >= t).collect();
+        match rot.recover_entries_after(t) {
+            Err(e) => {
+                complaint = Some(("C09:compose:recover-entries-after-fails-on-a-crash-image", format!("recover_entries_after({}) = Err({})", t, e)));
+            }
+            Ok(ds) => {
+                if ds.len() != want.len() {
+                    complaint = Some(("C09:compose:recover-entries-after-count", format!("recover_entries_after({}) returned {} deltas, recover_all_entries holds {} entries stamped >= it", t, ds.len(), want.len())));
+                } else {
+                    for (d, e) in ds.iter().zip(want.iter()) {
+                        let bytes = bincode::serialize(d).unwrap();
+                        if bytes != e.data {
+                            complaint = Some(("C09:compose:recovered-delta-not-bit-identical", format!("a delta returned by recover_entries_after({}) does not serialise to the payload of its entry (stamp {})", t, e.timestamp)));
+                        } else if !by_data.contains_key(&(bytes, e.timestamp)) {
+                            complaint = Some(("C09:compose:recovered-delta-never-written", format!("recover_entries_after({}) returned a delta (stamp {}) that no Write message carried", t, e.timestamp)));
+                        }
+                    }
+                }
+            }
+        }
+    }
+    (es.iter().map(|e| by_data.get(&(e.data.clone(), e.timestamp)).map(|i| i.to_string()).unwrap_or("?".into())).collect(), complaint)
 }
 
 fn op_line(wl: &Workload, bases: &[usize], spawn_failed: &[bool]) -> String {
-    let head = if wl.pol == Pol::Always { "G".to_string() } else { format!("GP {}", wl.pol.letter()) };
+    let head = if wl.timeout_mode() { format!("GT {}", wl.max_wait_us) } else if wl.pol == Pol::Always { "G".to_string() } else { format!("GP {}", wl.pol.letter()) };
     let mut s = format!("{} {} {} {} {} {} {} K {}", head, CODE_SYNCS_BEFORE_DROP as u8, CODE_TICK_SYNCS as u8, CODE_WAL_FORMAT, CODE_RESTART_REUSES_SEQ as u8, wl.max_size, wl.max_entries, wl.incs.len());
     for (k, inc) in wl.incs.iter().enumerate() {
         let base = bases.get(k).cloned().unwrap_or(0);
@@ -587,7 +637,9 @@ fn run_workload(wl: &Workload, out: &mut Out, source: &str) {
     let mut acks = r.acks.clone();
     acks.sort();
     let acks_s: Vec<String> = acks.iter().map(|(i, a, _)| format!("{}={}", i, a)).collect();
-    let rec: Vec<Vec<String>> = r.images.iter().map(|img| recover_ids(img, &by_data, wl.max_size)).collect();
+    let recc: Vec<(Vec<String>, Option<(&'static str, String)>)> = r.images.iter().map(|img| recover_ids_checked(img, &by_data, wl.max_size)).collect();
+    let compose_complaint: Option<(usize, &'static str, String)> = recc.iter().enumerate().find_map(|(t, (_, c))| c.as_ref().map(|(s, m)| (t, *s, m.clone())));
+    let rec: Vec<Vec<String>> = recc.into_iter().map(|(v, _)| v).collect();
     let crash_s: Vec<String> = rec.iter().map(|v| v.join(" ")).collect();
     out.op(op_line(wl, &r.bases, &r.spawn_failed), format!("acks {} | trace {} | crash {}", acks_s.join(" "), r.trace.join(" "), crash_s.join(" ; ")));
 
@@ -674,10 +726,26 @@ fn run_workload(wl: &Workload, out: &mut Out, source: &str) {
         out.count("burst:one-caller-no-yield(mailbox capacity crossed)");
     }
     out.count(&format!("group_commit_max_wait_us:{}", wl.max_wait_us));
+    // a fault-free workload whose group-commit wait exceeds 5 s: every fsync-class error is the caller's deadline
+    if wl.timeout_mode() && wl.max_wait_us > 5_000_000 && wl.incs.iter().all(|i| i.faults.is_empty() && i.dead.is_none()) {
+        for (_, a, _) in &acks {
+            if *a == "fsync" {
+                out.count("caller:ack-timeout(5s)");
+                TIMEOUTS_SEEN.fetch_add(1, std::sync::atomic::Ordering::Relaxed);
+            }
+        }
+    }
+    if wl.timeout_mode() {
+        out.count(if wl.max_wait_us > 5_000_000 { "timeout-mode:wait>5s" } else { "timeout-mode:wait<5s" });
+    }
     if r.actor_panicked {
         out.violation("C09:actor-panicked", "the WAL actor task panicked", json!({"workload": replay}));
     }
     check_synced_survives(wl, &r, &rec, out, &replay);
+    out.count_n("compose-oracle:crash-images-checked", rec.len() as u64);
+    if let Some((t, sig, msg)) = compose_complaint {
+        out.violation(sig, &format!("crash image at I/O index {}: {}", t, msg), json!({"workload": replay, "crash_index": t}));
+    }
     // ORACLE (Always): an Ok ack whose entry is missing from recovery of a crash image taken after the
     // caller saw the ack
     for (id, a, seen_at) in &acks {
@@ -884,7 +952,15 @@ fn gen_workload(rng: &mut Rng, next_id: &mut u64) -> Workload {
         _ => 1 << 20,
     };
     let max_entries = *rng.pick(&[0usize, 1, 2, 3, 8, 64]);
-    Workload { pol, cfg_via_json: rng.chance(1, 4), max_wait_us: *rng.pick(&[0u64, 200, 200, 5000]), no_yield: false, max_size, max_entries, incs }
+    let mut wl = Workload { pol, cfg_via_json: rng.chance(1, 4), max_wait_us: *rng.pick(&[0u64, 200, 200, 5000]), no_yield: false, max_size, max_entries, incs };
+    // a group-commit wait around / beyond the callers' 5 s ack timeout (config corner: nothing bounds it)
+    if pol == Pol::Always && rng.chance(1, 8) {
+        wl.max_wait_us = *rng.pick(&LONG_WAITS_US);
+        if rng.chance(1, 2) {
+            wl.max_entries = *rng.pick(&[2usize, 3, 8, 64]);
+        }
+    }
+    wl
 }
 
 
@@ -1006,7 +1082,12 @@ fn production_path(out: &mut Out, rng: &mut Rng, pol: Pol, next_id: &mut u64) {
     let wl = Workload { incs: vec![Inc { faults: faults.clone(), dead: None, groups, ending: Ending::End, spawn_list_fails: false }], ..wl0 };
     let s = store.inner.lock().unwrap();
     let by_data: HashMap<(Vec<u8>, u64), u64> = wl.writes().iter().map(|w| ((w.data.clone(), w.ts), w.id)).collect();
-    let rec: Vec<Vec<String>> = s.images.iter().map(|img| recover_ids(img, &by_data, wl.max_size)).collect();
+    let recc: Vec<(Vec<String>, Option<(&'static str, String)>)> = s.images.iter().map(|img| recover_ids_checked(img, &by_data, wl.max_size)).collect();
+    if let Some((t, sig, msg)) = recc.iter().enumerate().find_map(|(t, (_, c))| c.as_ref().map(|(s, m)| (t, *s, m.clone()))) {
+        // the composed oracle on the production path: every crash image decodes, deltas bit-identical to what shipped
+        out.violation(sig, &format!("production path, crash image at I/O index {}: {}", t, msg), json!({"commands": cmds.iter().map(|c| format!("{:?}", c)).collect::<Vec<_>>(), "crash_index": t}));
+    }
+    let rec: Vec<Vec<String>> = recc.into_iter().map(|(v, _)| v).collect();
     let crash_s: Vec<String> = rec.iter().map(|v| v.join(" ")).collect();
     let line = op_line(&wl, &[0], &[false]).replacen(if pol == Pol::Always { "G " } else { "GP " }, if pol == Pol::Always { "GQ a " } else { "GQ " }, 1);
     out.op(line.clone(), format!("acks - | trace {} | crash {}", s.trace.join(" "), crash_s.join(" ; ")));
@@ -1152,6 +1233,25 @@ pub fn run(a: &Args) {
                     incs: vec![Inc { faults: vec![], dead: None, groups: vec![g], ending: Ending::End, spawn_list_fails: false }] };
                 run_workload(&wl, &mut out, "corpus:one-caller-floods-the-mailbox");
             }
+        }
+    }
+    // the callers' 5 s ack timeout (Props/C09Timeout.lean) on the real actor, virtual clock: a group-commit wait
+    // just below 5 s -> the callers hear the ack; just above / far above -> "WAL write timed out" while the
+    // actor flushes later (the entry is durable: a write reported failed may survive); a batch cut by
+    // max_entries or a Shutdown is answered at once whatever the wait
+    {
+        let before_t = TIMEOUTS_SEEN.load(std::sync::atomic::Ordering::Relaxed);
+        for (wait, max_entries) in [(4_998_000u64, 8usize), (5_002_000, 8), (10_000_000, 8), (10_000_000, 2), (60_000_000, 64)] {
+            let g1 = vec![Msg::Durable(mk_write(next_id + 1, 1, 1)), Msg::Durable(mk_write(next_id + 2, 2, 1)), Msg::Durable(mk_write(next_id + 3, 3, 1))];
+            let g2 = vec![Msg::Durable(mk_write(next_id + 4, 4, 1)), Msg::Shutdown];
+            next_id += 4;
+            let wl = Workload { pol: Pol::Always, cfg_via_json: false, max_wait_us: wait, no_yield: false, max_size: 200, max_entries,
+                incs: vec![Inc { faults: vec![], dead: None, groups: vec![g1], ending: Ending::Clean, spawn_list_fails: false },
+                           Inc { faults: vec![], dead: None, groups: vec![g2], ending: Ending::End, spawn_list_fails: false }] };
+            run_workload(&wl, &mut out, "corpus:ack-timeout");
+        }
+        if TIMEOUTS_SEEN.load(std::sync::atomic::Ordering::Relaxed) == before_t {
+            out.violation("C09:coverage:ack-timeout-not-driven", "no write_durable caller ran into its 5 s ack timeout on the corpus workloads with group_commit_max_wait > 5 s", json!({}));
         }
     }
     for i in 0..(a.n / 25).max(12) {
